@@ -43,6 +43,7 @@ class Driver:
         self.arities = []
         self.steps = []
         self.chooser_calls = 0
+        self.alg = KwikSortRandom()       # ONE instance serves every schedule of a case
 
     def chooser(self, seq):
         self.chooser_calls += 1
@@ -72,7 +73,7 @@ class Driver:
             KwikSortRandom._get_pivot = wrapped
             random.seed(seed)
             with lib.quiet():
-                return KwikSortRandom().compute_consensus_rankings(d, s, True)
+                return self.alg.compute_consensus_rankings(d, s, True)
         finally:
             if orig_choice_mod is not None:
                 ksr_mod.choice = orig_choice_mod
